@@ -1,6 +1,7 @@
 // Driver for C12 (retention removes exactly the expired messages and nothing else).
 //
 //	scan <store> <period_s> <boxes> <inj> <cancelAt>
+//	   store    mem | file | file.pathlink | file.maillink | file.bucketlink (see newStore: symbolic links in the storage tree)
 //	   boxes    mb:age,age,…;mb:…       ages in seconds ("mb:" = a mailbox that got mail and was purged); "age*n" = n
 //	                                    messages of that age (large mailboxes)
 //	   inj      pos/op,…                 operations of other clients forced between the scanner's steps
@@ -311,16 +312,59 @@ func workdir() string {
 	return os.TempDir()
 }
 
+// newStore: kind is mem | file | file.<layout>. The layout is the ENVIRONMENT of a file-store case:
+//
+//	pathlink    the storage path itself is a symbolic link to a directory elsewhere
+//	maillink    <path>/mail is a symbolic link to a directory elsewhere (made before file.New)
+//	bucketlink  after the mailboxes have been filled and before the scan (envReady) every first-level hash
+//	            directory is moved elsewhere and replaced by a symbolic link
+//
+// The store follows the links for deliveries and listings; so must the walk of the retention scan.
 func newStore(kind string) (storage.Store, func()) {
 	caseNo++
+	envReady = func() {}
 	extHost := extension.NewHost()
-	if kind == "file" {
-		dir := filepath.Join(workdir(), fmt.Sprintf("c12-%d-%d", os.Getpid(), caseNo))
+	if strings.HasPrefix(kind, "file") {
+		root := filepath.Join(workdir(), fmt.Sprintf("c12-%d-%d", os.Getpid(), caseNo))
+		dir := root
+		switch strings.TrimPrefix(kind, "file") {
+		case ".pathlink":
+			dir = filepath.Join(root, "store")
+			real := filepath.Join(root, "volume")
+			_ = os.MkdirAll(real, 0o770)
+			_ = os.Symlink(real, dir)
+		case ".maillink":
+			dir = filepath.Join(root, "store")
+			real := filepath.Join(root, "mailvolume")
+			_ = os.MkdirAll(dir, 0o770)
+			_ = os.MkdirAll(real, 0o770)
+			_ = os.Symlink(real, filepath.Join(dir, "mail"))
+		case ".bucketlink":
+			dir = filepath.Join(root, "store")
+			envReady = func() {
+				mail := filepath.Join(dir, "mail")
+				ents, err := os.ReadDir(mail)
+				if err != nil {
+					return
+				}
+				vol := filepath.Join(root, "buckets")
+				_ = os.MkdirAll(vol, 0o770)
+				for _, e := range ents {
+					p := filepath.Join(mail, e.Name())
+					if fi, err := os.Lstat(p); err == nil && fi.IsDir() {
+						dst := filepath.Join(vol, e.Name())
+						if os.Rename(p, dst) == nil {
+							_ = os.Symlink(dst, p)
+						}
+					}
+				}
+			}
+		}
 		st, err := file.New(config.Storage{Params: map[string]string{"path": dir}}, extHost)
 		if err != nil {
 			panic(err)
 		}
-		return st, func() { os.RemoveAll(dir) }
+		return st, func() { os.RemoveAll(root) }
 	}
 	st, err := mem.New(config.Storage{Params: map[string]string{}}, extHost)
 	if err != nil {
@@ -328,6 +372,9 @@ func newStore(kind string) (storage.Store, func()) {
 	}
 	return st, func() {}
 }
+
+// envReady is called once the mailboxes of a case have been filled, before the scanner runs (layout bucketlink).
+var envReady = func() {}
 
 func (d *drv) fill(boxes string) {
 	if boxes == "-" {
@@ -364,6 +411,7 @@ func runScan(in []string) []string {
 	period := vh.AtoI(in[1])
 	d := newDrv(st)
 	d.fill(in[2])
+	envReady()
 	if in[3] != "-" {
 		for _, s := range strings.Split(in[3], ",") {
 			p := strings.SplitN(s, "/", 2)
@@ -463,6 +511,7 @@ func runSlow(in []string) []string {
 	period := vh.AtoI(in[1])
 	d := newDrv(st)
 	d.fill(in[2])
+	envReady()
 	mb := vh.US(in[3])
 	head, tail := "Subject: s\r\n\r\nfirst half of a slow body\r\n", "second half of a slow body\r\n"
 	gr := &gatedReader{head: strings.NewReader(head), tail: strings.NewReader(tail), entered: make(chan struct{}), release: make(chan struct{})}
@@ -530,6 +579,7 @@ func runStart(in []string) []string {
 	cancelMs := vh.AtoI(in[2])
 	d := newDrv(st)
 	d.fill(in[3])
+	envReady()
 	ctx, cancel := context.WithCancel(context.Background())
 	defer cancel()
 	rs := storage.NewRetentionScanner(config.Storage{RetentionPeriod: time.Duration(period) * time.Second}, st)
